@@ -202,6 +202,19 @@ def run(repo, rep, tier):
         rep.check('bound', 'host-key probe loop is bounded by the literal table of key types, not by a peer-supplied list', src == 'table', lp,
                   'the host-key probe opens one connection per element of %s: the number of connections is chosen by the peer (a long or repetitive host-key list makes the audit open as many connections), not bounded by the %d-entry table' % (unparse(lp.iter), len(hkt)),
                   stmt='host-key probe loop source')
+    # exceptional paths (the interpretation model above follows the no-exception path only): on EVERY path of the control-flow graph, exception edges included,
+    # a key-exchange request is followed by a close of the connection before the loop head is reached again or the probe returns
+    c = CFG(pt)
+    sends = c.stmts_matching(lambda st: is_call(st, lambda n: unparse(n.func) == 'kex_group.send_init'))
+    closes = c.stmts_matching(lambda st: is_call(st, lambda n: unparse(n.func) == 's.close'))
+    rep.floor('senders', 'send sites in perform_test', len(sends), 1)
+    heads = [h for lp in probe_loops for h in c.nodes_of(lp, kinds=('test',))]
+    starts = set()
+    for s_ in sends:
+        starts |= {x for x in s_.succ if x.kind not in ('raise',)}
+    p_ = c.find_path(list(starts), heads + [c.exit], avoid=closes)
+    rep.check('senders', 'host-key probe: after a KEX request the connection is closed before the next type is probed or the probe returns (all paths, exceptions included)', p_ is None, sends[0].stmt,
+              'a second key-exchange request can be sent on the same connection (no close between sends)', witness=describe_path(p_) if p_ else None)
     whiles = [n for n in walk_no_nested(pt) if isinstance(n, ast.While) and opens_connection(n)]
     rep.check('bound', 'no while loop opens probe connections', not whiles, whiles[0] if whiles else pt, 'connections opened inside a while loop in perform_test')
     hk_bound = len(hkt)
